@@ -14,29 +14,42 @@ import lib
 from props import c19_shell as S
 
 SPEC_THEOREMS = {
-    'cp_file_exact': 'Shell/ProofsCmd.v. do_cp false [s] d w = (w\', Ok) and s holds File c => w\' = wput w t (File c) with t = d/name(s) '
-        'when d is a directory, else d; t holds File c, s still holds File c, every path not comparable with t (other file '
-        'system, or neither a prefix of the other under the name key) resolves as before',
-    'cp_r_tree_exact': 'Shell/ProofsCmd.v. do_cp true [s] d w = (w\', Ok) and s holds a directory n => w\' = wput w t (merge key_t '
-        '(what t held) n): for every child of n in listing order the target child of that name (key of the target file '
-        'system; an existing spelling is kept) is replaced by the merge, other target children stay; merge None n = n when no '
-        'two siblings anywhere in n share a key; s unchanged; frame as above',
-    'roundtrip': 'Shell/ProofsCmd.v. host directory a (no two siblings equal up to fold, at any depth), b missing on a partition with '
-        'an existing parent directory, c missing on the host with an existing parent directory, a and c not inside one '
-        'another => both cp -r succeed, c holds exactly the node a holds, a is unchanged',
-    'mv_moves': 'Shell/ProofsCmd.v. same file system: success => w\' = w when s and t are the same entry, else w\' = wrem (wput w t n) s: '
-        's resolves to nothing, t holds the old node (an existing file / on the host an existing EMPTY directory is replaced; '
-        'FatPath.rename refuses every existing directory), frame.  Across file systems: w\' = wrem (wput w t (merge (what t '
-        'held) n)) s, i.e. the same world as a rename whenever t was missing and n has no clashing sibling names; '
-        'otherwise directories are MERGED into an existing target directory, which a rename never does',
-    'rm_removes_exactly': 'Shell/ProofsCmd.v. rm / rm -r / rmdir of one existing non-root path p: success => w\' = wrem w p (p resolves to '
-        'nothing, every path not at or below p resolves as before); rm without -r on a directory, rmdir on a non-empty '
-        'directory or on a file fail with w\' = w',
-    'failing_command_frame': 'Shell/ProofsFrame.v. for EVERY command and outcome (success or any error): every path that is not '
-        'comparable with one of the command\'s written arguments (cp: dest; mv: dest and the sources; rm/rmdir/mkdir/touch: '
-        'the operands; cat: the -o file) resolves exactly as before, and every file system keeps a directory as root',
-    'cat_concat': 'Shell/ProofsCmd.v. all inputs hold files => cat writes their concatenation to stdout and changes nothing; with -o '
-        '(output creatable, not among the inputs) the output file holds the concatenation',
+    'Shell.cp_file_exact': 'Shell/ProofsCmd.v. do_cp r [s] d w = (w2, Ok) (with or without -r), s holds File c; t = d/name(s) when d is '
+        'a directory (d itself for a root source), else d => w2 = wput w t (File c); t holds File c; s still holds File c; every q '
+        'disjoint from t (other file system, or neither a prefix of the other under the name key) resolves as before',
+    'Shell.cp_r_tree_exact': 'Shell/ProofsCmd.v. do_cp true [s] d w = (w2, Ok), s holds Dir ch => w2 = wput w t m with m = merge key_t '
+        '(what t held) (Dir ch): for every source child in listing order the target child of that name (key of the TARGET '
+        'file system; an existing spelling is kept, a new name is appended) is replaced by the merge of the two, other target '
+        'children stay; t holds m; s unchanged unless s and t are the same entry; frame as above; t missing and wfb key_t (Dir ch) '
+        '(no two siblings share a key, at any depth) => m = Dir ch',
+    'Shell.roundtrip': 'Shell/ProofsCmd.v. a on the host holds n, wfb fold n (no two sibling names equal up to fold at any depth), b '
+        'creatable on a partition, c creatable on the host (missing, parent is a directory) => cp -r a b and then cp -r b c both '
+        'return Ok, c holds exactly n, b holds n, and a still holds n unless c lies inside a.  roundtrip_needs_distinct_names '
+        '(Example): with siblings n / N the partition keeps one entry',
+    'Shell.mv_moves': 'Shell/ProofsCmd.v. do_mv [s] d w = (w2, Ok), s holds n, same file system: either s and t are the same entry '
+        '(any spelling) and w2 = w, or w2 = wrem (wput w t n) s, s resolves to nothing, t holds n, every q disjoint from s '
+        'and t resolves as before.  (p_rename: an existing file is replaced by a file; on the host an existing EMPTY '
+        'directory is replaced by a directory; FatPath.rename refuses every existing directory; a directory into itself is '
+        'EINVAL)',
+    'Shell.mv_across': 'Shell/ProofsCmd.v. different file systems, s not a root: w2 = wrem (wput w t (merge key_t (what t held) n)) s; s '
+        'gone, t holds the merge, frame; = the rename world wrem (wput w t n) s whenever t was missing and wfb key_t n.  '
+        'Difference to a rename: an existing target directory is merged into instead of refused / replaced',
+    'Shell.rm_removes_exactly': 'Shell/ProofsCmd.v. do_rm r f [p] = Ok on an existing non-root p => w2 = wrem w p, p resolves to '
+        'nothing, every q disjoint from p resolves as before, and without -r p was a file.  rm_dir_needs_r: rm without -r on a '
+        'directory = (w, IsADirectoryError).  rm_missing: (w, Ok) with -f, (w, FileNotFoundError) without.  '
+        'rmdir_removes_exactly: success => p held Dir [], non-root, w2 = wrem w p.  rmdir_nonempty_fails / rmdir_file_fails: '
+        '(w, ENOTEMPTY) / (w, NotADirectoryError)',
+    'Shell.failing_command_frame': 'Shell/ProofsFrame.v (command_frame). exec c w = (w2, r) for EVERY command and EVERY outcome r '
+        '(success or any error, also after partial work on several operands): every path disjoint from all written operands '
+        '(cp: dest; mv: dest and the sources; rm/rmdir/mkdir/touch: the operands; cat: the -o file) resolves exactly as before. '
+        'do_mkdir_frame_strong: mkdir [-p] changes only paths that are a prefix of an operand',
+    'Shell.cat_concat': 'Shell/ProofsCmd.v. every input holds a file => do_cat srcs None w = (w, Ok (concat contents)); with -o, output '
+        'creatable or an existing file and disjoint from the inputs => (wput w o (File (concat contents)), Ok), o holds the '
+        'concatenation, frame.  cat_run (Example): a failing input leaves what was read before it in the output file',
+    'Shell.examples': 'Shell/ProofsExamples.v, vm_compute: round trip with its hypotheses; name clash; spelling kept on overwrite; '
+        'refusals (same file, no -r, into itself); several sources stopping at the failing one; rename / same entry / merge '
+        'across file systems; the three host-vs-FAT differences (touch on a directory, is_dir below a file, rename onto an '
+        'empty directory); missing partition',
 }
 
 TRUSTED = [
@@ -356,6 +369,11 @@ def run_one(ctx, R, worker, vols, cmds, wild, rng, length, kind):
             show = show_cmd(ses.T, c)
             replay = dict(api='sh-model', vols=vols, cmds=list(history))
             out, after = model_step(R, trees, c)
+            if out == ('err', 'OutOfFuel'):
+                # a recursive copy into / out of its own sub-tree: the real tool recurses into what it writes; not run
+                ctx.stat('shm-not-modelled-overlap')
+                history.pop()
+                continue
             for t in after.values():
                 contents(t, ses.table)
             try:
@@ -383,9 +401,6 @@ def run_one(ctx, R, worker, vols, cmds, wild, rng, length, kind):
             if rc != 0 and 'No space left' in r['err']:
                 ctx.stat('shm-out-of-space')
                 continue
-            if out == ('err', 'OutOfFuel'):
-                ctx.stat('shm-not-modelled-overlap')
-                continue
             done += 1
             changed = any(canon(before[fs]) != canon(real[fs]) for fs in real)
             ctx.case(('shm', ident, i), True, 'shm-' + kind)
@@ -410,6 +425,40 @@ def run_one(ctx, R, worker, vols, cmds, wild, rng, length, kind):
         ses.close()
 
 
+def scripted():
+    """fixed corner histories (run first, every time)"""
+    H = lambda *p: ['h', list(p), 'n']
+    I = lambda *p: [1, list(p), 'n']
+    A = lambda *p: [1, list(p), 'a']
+    J = lambda *p: [2, list(p), 'n']
+    put = lambda name, size, seed: {'op': 'put', 'path': ['h', [name]], 'size': size, 'seed': seed}
+    cp = lambda s, d, r=False: {'op': 'cp', 'r': r, 'srcs': s, 'dest': d}
+    mv = lambda s, d: {'op': 'mv', 'srcs': s, 'dest': d}
+    mk = lambda *ps, p=False: {'op': 'mkdir', 'parents': p, 'paths': list(ps)}
+    rm = lambda *ps, r=False, f=False: {'op': 'rm', 'r': r, 'f': f, 'paths': list(ps)}
+    return [
+        # an empty file over a non-empty one truncates it (host -> image, image -> image, image -> host, across partitions)
+        [put('full', 7, 1), put('empty', 0, 2), cp([H('full')], I('t')), cp([H('full')], J('t')), cp([H('empty')], I('t')),
+         cp([I('t')], J('t')), cp([H('full')], H('t2')), cp([J('t')], H('t2')), cp([H('full')], I('u')), cp([H('empty')], I('e')),
+         cp([I('e')], A('U')), {'op': 'cat', 'srcs': [H('empty')], 'out': H('full')}],
+        # directories need -r to go; -f forgives only a missing operand
+        [put('f', 3, 3), mk(H('d', 'e'), I('d', 'e'), J('d'), p=True), rm(H('d')), rm(I('d')), rm(I('D'), f=True), rm(J('d')),
+         rm(H('nope')), rm(H('nope'), f=True), rm(I('nope'), f=True), rm(H('f', 'x'), f=True), rm(H('nope'), H('f')),
+         {'op': 'rmdir', 'paths': [I('d')]}, {'op': 'rmdir', 'paths': [I('d', 'E'), I('D')]}, rm(H('d'), r=True), rm(J(), r=True)],
+        # moving across file systems removes the source; within one it renames; onto itself nothing happens
+        [put('f', 5, 4), put('g', 2, 5), mk(H('d', 'e'), I('x'), p=True), cp([H('f'), H('g')], H('d', 'e')), mv([H('f')], I('F')),
+         mv([I('f')], J('f')), mv([H('d')], I('x')), mv([I('x', 'd')], J('dd')), mv([J('dd', 'e', 'g')], J('DD', 'E', 'G')),
+         mv([J('dd')], I('x')), mv([I('x')], H()), mv([H('x'), H('g')], H('nope')), mv([H('x', 'dd'), H('nope'), H('g')], I()),
+         mk(J('dd', 'e'), p=True), mv([I('dd')], J()), mk(H('m', 'dd'), I('m'), p=True), mv([H('m', 'dd')], I('m')),
+         mv([I('m', 'dd')], H('m')), mk(H('m', 'dd')), mv([I('m')], H()), {'op': 'touch', 'paths': [H('m'), I('M', 'new'), I('m')]}],
+        # a directory onto an existing directory of its name: os.rename replaces an empty one, FatPath.rename refuses,
+        # across file systems the two are merged
+        [put('k', 1, 6), mk(H('s'), H('e', 's'), I('s'), I('e', 's'), J('e', 's', 'z'), p=True), cp([H('k')], H('s')), cp([H('k')], I('s')),
+         mv([I('s')], I('E')), mv([H('s')], H('e')), mv([I('s')], J('e')), mv([H('e', 's')], J('E')), mk(H('s', 'n'), H('e', 's', 'm'), p=True),
+         mv([H('s')], H('e')), cp([H('s')], H('e'), True), cp([H('k')], H('e', 's', 'n')), cp([H('s'), H('k')], H('e'), True)],
+    ]
+
+
 def run(ctx):
     rng = ctx.rng
     R = ctx.runner('Shell')
@@ -424,6 +473,8 @@ def run(ctx):
         # the scripted round trip of c19_shell with a small file
         seq = S.roundtrip_sequence(rng, 300)
         total += run_one(ctx, R, worker, seq.vols, seq.cmds, False, rng, 0, 'roundtrip')
+        for cmds in scripted():
+            total += run_one(ctx, R, worker, [['fat12', 600, 1], ['fat32', 600, 1]], cmds, False, rng, 0, 'scripted')
         k = 0
         while total < target and time.time() - t0 < budget:
             k += 1
@@ -448,6 +499,8 @@ def replay(ctx, obj):
     R = ctx.runner('Shell')
     worker = S.Worker()
     n0 = len(ctx.violations)
+    for k in [k for k in _COUNT if k[0] == id(ctx)]:
+        del _COUNT[k]
     try:
         run_one(ctx, R, worker, r['vols'], r['cmds'], False, ctx.rng, 0, 'replay')
     finally:
